@@ -33,8 +33,9 @@ def verifyLabel (v : PyVal) : Except Err Unit :=
   | .str s => if Gen.re_composeinfo_LABEL_RE_LIST.any (pyMatches · s) then .ok () else .error .valueError
   | _ => .error .typeError
 
-/-- composeinfo `Variant._validate_uid` -/
+/-- composeinfo `Variant._validate_uid` (with the F23 repair: `_assert_type("uid", str)` comes first) -/
 def ciVariantUid (o : Obj) : Except Err Unit :=
+  if !(o.get "uid".toList).isinstance .str then .error .typeError else
   match o.get "parent".toList with
   | .none =>
     match o.get "uid".toList with
@@ -97,7 +98,7 @@ def tiImagePaths (o : Obj) : Except Err Unit :=
       | .dict kv => kv.foldl (fun acc2 (_, path) => acc2.bind fun _ =>
           match path with
           | .str s => if Str.startsWith s ['/'] then .error .valueError else .ok ()
-          | _ => .error .attributeError) (.ok ())
+          | _ => .error .typeError) (.ok ())          -- F23 repair: explicit isinstance check
       | _ => .error .attributeError) (.ok ())
   | _ => .ok ()
 
